@@ -25,7 +25,7 @@ What the theorems say, clause by clause:
 * **successfully, or non-zero status with a diagnostic, never a panic** — `C14_no_panic` (per command, under exactly
   the guards of the two recorded findings), `C14_loader_no_panic`, `C14_fails_cleanly`.
 * **an error in any included file fails the whole command** — `C14_included_error_fails`, `C14_cycle_is_error`,
-  `C14_load_ok_iff`, `C14_included_error_fails_command`.
+  `C14_load_ok_iff`, `C14_included_error_fails_command`, `C14_included_semantic_error_fails`.
 * **a failing report command leaves standard output empty** — `C14_error_stdout_empty` (structural in the model; tied
   to the code by `FactsAgree/C14.lean`: the writer on standard output is created after the last fallible call).
 
@@ -121,6 +121,29 @@ theorem C14_included_error_fails_command (c : Command) (fs : FileSys) (f : Flags
   | balance => obtain ⟨w, hw⟩ := runBalance_load_error fs f (e := e) (by simpa using h); simp only [Cmd.run, hw]; rfl
   | transcode => obtain ⟨w, hw⟩ := runTranscode_load_error fs f (e := e) (by simpa using h); simp only [Cmd.run, hw]; rfl
   | infer => simp only [Cmd.run]; rw [runInfer_load_error fs f (by simpa using h)]; rfl
+
+/-- **an error in any included file fails the whole command**, second half: a file of the include graph that loads
+and parses but cannot be turned into model directives (impossible date, invalid account type, unparsable amount,
+`@accrue` window that ends before it starts, …) makes every command that builds the journal end without success —
+wherever the file is in the graph, whatever the flags. -/
+theorem C14_included_semantic_error_fails (c : Command) (fs : FileSys) (f : Flags)
+    (hc : c = .check ∨ c = .balance ∨ c = .print ∨ c = .transcode) :
+    ∀ files, load fs parseForLoader f.path = .ok files → ∀ pf ∈ files, ∀ e, elabFile pf.2 = .error e →
+      (Cmd.run c fs f).cls ≠ .ok := by
+  intro files hl pf hpf e he
+  obtain ⟨e', h'⟩ := fromPath_error_of_file fs f.path files hl pf hpf e he
+  rcases hc with rfl | rfl | rfl | rfl
+  · exact runCheck_fromPath_error fs f h'
+  · exact runBalance_fromPath_error fs f h'
+  · exact runPrint_fromPath_error fs f h'
+  · exact runTranscode_fromPath_error fs f h'
+
+/-- the parser the loader runs on every file is `syntax.ParseFile`'s (the C07 model `parseText`): same tree, same
+error; the loader only adds the include callback -/
+theorem C14_loader_parser_is_parseText (file : Path) (text : Commands.Bytes) :
+    (parseForLoader file text).result =
+      (match Syntax.parseText file text with | .ok f => .ok (text, f) | .error e => .error e) :=
+  parseForLoader_result file text
 
 /-- **no command panics**, under exactly the guards of the two recorded findings:
 
